@@ -400,15 +400,15 @@ func c04MethodGate(c *Ctx) {
 		}
 	}
 	keys := sortedKeys(methodAtoms)
-	c.check(len(keys) == 2 && methodAtoms["INVITE"] && methodAtoms["SUBSCRIBE"], rule, "findBackendByDialog/refused-methods", w.ipos(gb), "only INVITE and SUBSCRIBE bypass the pin lookup", fmt.Sprintf("the methods that bypass the pin lookup are %v, expected exactly [INVITE SUBSCRIBE]: in-dialog requests of a refused method are load-balanced (or dialog-creating requests are looked up)", keys))
-	// any other method with a computable dialog always reaches the lookup
+	c.check(len(keys) == 0, rule, "findBackendByDialog/refused-methods", w.ipos(gb), "no method bypasses the pin lookup (a dialog-creating request has no To tag, so GetDialog fails for it and it is load-balanced on that ground)", fmt.Sprintf("requests of method %v bypass the pin lookup whatever dialog they belong to: a re-INVITE or refresh SUBSCRIBE of a pinned dialog (both tags present) is load-balanced instead of reaching the backend that answered the dialog", keys))
+	// every request with a computable dialog reaches the lookup
 	as := []assumption{assumeAtom(errNil(gm), true), assumeAtom(errNil(gd), true)}
 	for _, m := range keys {
 		m := m
 		as = append(as, assumeAtom(func(a Atom) bool { return a.Kind == "eqstr" && a.Str == m && isResultOf(a.X, gm, 0) }, false))
 	}
 	mn, mx, inf := countSites(entryPt(f), w.under(as...), isInstr(gb))
-	c.check(mn == 1 && mx == 1 && !inf, rule, "findBackendByDialog/every-other-method-looked-up", w.ipos(gb), "every other method is looked up exactly once", fmt.Sprintf("for a method that is neither INVITE nor SUBSCRIBE the lookup executes min=%d max=%d times", mn, mx))
+	c.check(mn == 1 && mx == 1 && !inf, rule, "findBackendByDialog/every-other-method-looked-up", w.ipos(gb), "every request with a dialog identifier is looked up exactly once", fmt.Sprintf("for a request whose method and dialog identifier are available (outside the methods reported above) the lookup executes min=%d max=%d times", mn, mx))
 	// results: backend and error of that lookup
 	good := false
 	for _, r := range returnsUnder(f, nil) {
